@@ -98,6 +98,12 @@ class _CR:
     def __init__(self, **kw):
         self.__dict__.update(kw)
 
+    def __getattr__(self, attr):
+        # an attribute of the real CollectedResult that this stand-in does not carry: undecided, never AttributeError
+        from pyvc.ctx import unknown_attr
+
+        return unknown_attr("ioos_qc.results.CollectedResult", attr)
+
 
 def label_spec(stream, package, test):
     """'<stream>.<package>.<test>' with empty parts (and their dot) left out"""
@@ -121,7 +127,14 @@ class ColumnName(Case):
             e.cr = _CR(stream_id=SStr(z3.String("stream")), package=SStr(z3.String("package")), test=SStr(z3.String("test")))
         else:
             v = mk.values
-            e.cr = _CR(stream_id=v["stream"], package=v["package"], test=v["test"])
+            if mk.mode == "real":
+                # the real run hands over what the library hands over: a CollectedResult of the tree under test
+                from pyvc import replay
+
+                fn = replay.real_module("ioos_qc.qartod").gross_range_test
+                e.cr = replay.real_module("ioos_qc.results").CollectedResult(stream_id=v["stream"], package=v["package"], test=v["test"], function=fn)
+            else:
+                e.cr = _CR(stream_id=v["stream"], package=v["package"], test=v["test"])
         return e
 
     def stubs(self, T):
